@@ -33,8 +33,9 @@ fcppt::options::impl::is_flag(fcppt::string_view const &_value)
 
   ++pos;
 
+  // A single dash is a short flag with an empty name; do not look past the end.
   return result_type{
-      is_dash(*pos)
+      pos != _value.end() && is_dash(*pos)
           ? std::make_pair(
                 fcppt::options::detail::flag_is_short{false},
                 fcppt::string{// NOLINTNEXTLINE(fuchsia-default-arguments-calls)
